@@ -58,6 +58,7 @@ func TestC21(t *testing.T) {
 		wo := sim.DefaultOpts()
 		wo.FeeCoin = sim.U(t, "feeCoin", 3) == 0
 		h := newHistory(t, wo, checkProfile(), sim.BlockOpts{MaxTxs: 10})
+		defer queryLoad(t, h, 0)()
 		used := map[types.Hash]bool{}
 		var redeemed []c21Redeemed
 		regenesisAttempts := 0
